@@ -23,7 +23,7 @@ import (
 
 type cfgT struct {
 	Parallel, Kv, Batch, Vocab, Eos, Pad, MaskPad int
-	Multi, Shift, Partial, Resume, NoCache        bool
+	Multi, Shift, Partial, Resume, NoCache, Watch bool
 	Window                                        int // 0: plain causal; >0: sliding window cache
 }
 
@@ -43,7 +43,7 @@ func getCfg(c map[string]any) cfgT {
 	}
 	return cfgT{Parallel: i("parallel", 1), Kv: i("kv", 8), Batch: i("batch", 4), Vocab: i("vocab", 8), Eos: i("eos", -1),
 		Pad: i("pad", 1), MaskPad: i("maskpad", 1), Multi: b("multi", false), Shift: b("shift", true), Partial: b("partial", true), Resume: b("resume", true),
-		NoCache: b("nocache", false), Window: i("window", 0)}
+		NoCache: b("nocache", false), Window: i("window", 0), Watch: b("watch", false)}
 }
 
 type world struct {
@@ -51,6 +51,7 @@ type world struct {
 	srv     *ollamarunner.Server
 	m       *scripted
 	causal  *kvcache.Causal
+	front   *limitedCache
 	reqs    map[int]*ollamarunner.Sequence // request index -> sequence (live or finished, until closed seen)
 	reqSlot map[int]int                    // request index -> slot it was given
 }
@@ -69,10 +70,11 @@ func newWorld(cfg cfgT) (*world, error) {
 		} else {
 			w.causal = kvcache.NewCausalCache(sf)
 		}
-		if cfg.Partial && cfg.Resume {
+		if cfg.Partial && cfg.Resume && !cfg.Watch {
 			cache = w.causal
 		} else {
-			cache = &limitedCache{Cache: w.causal, noPartial: !cfg.Partial, noResume: !cfg.Resume}
+			w.front = &limitedCache{Cache: w.causal, noPartial: !cfg.Partial, noResume: !cfg.Resume, watch: cfg.Watch}
+			cache = w.front
 		}
 	}
 	w.m = &scripted{Base: model.VerifNewBase(be, cache), vocab: int32(cfg.Vocab), eos: int32(cfg.Eos)}
@@ -358,6 +360,9 @@ func (logCounter) Handle(_ context.Context, r slog.Record) error {
 	if r.Message == "defragmenting kv cache" {
 		defragCount++
 	}
+	if r.Message == "evicting cache slot" || r.Message == "forking cache slot" {
+		parkPoint() // inside findBestCacheSlot, before the slot is marked InUse
+	}
 	return nil
 }
 func (h logCounter) WithAttrs([]slog.Attr) slog.Handler { return h }
@@ -386,6 +391,8 @@ func main() {
 		switch c["op"] {
 		case "hist":
 			return runHist(c)
+		case "conc":
+			return runConc(c)
 		case "discard": // ShiftDiscard of both runners
 			n, l, k := hx.Int(c["numctx"]), hx.Int(c["len"]), hx.Int(c["keep"])
 			return map[string]any{"ollama": ollamarunner.VerifShiftDiscard07(int32(n), int32(l), int32(k)), "llama": llamarunner.VerifShiftDiscard07(n, l, k)}
